@@ -262,6 +262,11 @@ def run(ctx: Ctx):
     s = Stream(ctx, "(a) rules under two renamings")
     cases = random_cases(ctx.rng("rules"), ctx.size(6000, 120000), comps=ABSTRACT, strict=False, max_nodes=12, max_imports=10)
     cases += random_cases(ctx.rng("rules-strict"), ctx.size(3000, 60000), comps=ABSTRACT, strict=True, max_nodes=12, max_imports=10)
+    lrng = ctx.rng("rules-limit")
+    for c in cases:
+        if lrng.random() < 0.2:
+            # a level-limited architecture (names deeper than the limit then raise a lookup error under every renaming alike)
+            c["lim"] = lrng.randint(0, max(1, max(n.count(".") for n in c["nodes"])))
     judge_rules(ctx, s, cases, (ADV_ANY, ADV_ANY, ADV_CASE))
     s.finish()
     s = Stream(ctx, "(b) layer rules under two renamings")
